@@ -228,6 +228,39 @@ def run(tier, seed):
                {'space': meta, 'suggested': {k: v.value for k, v in sg.parameters.items()}})
     except Exception as e:  # pylint: disable=broad-except
       rep.count('seed_with_default_refused_%s' % type(e).__name__)
+  # ---- through the service: a study deleted and re-created under the same name with ANOTHER search space, one server process
+  # (whatever the server remembers of the old study must not shape the suggestions of the new one)
+  try:
+    from vizier._src.service import clients as _clients, vizier_client as _vc, vizier_service as _vsvc, study_pb2 as _spb, vizier_service_pb2 as _vs
+    from vizier.service import pyvizier as _svz2
+    hosted = ['GRID_SEARCH', 'QUASI_RANDOM_SEARCH', 'NSGA2', 'EAGLE_STRATEGY', 'SHUFFLED_GRID_SEARCH', 'RANDOM_SEARCH']
+    for hi in range(4 if tier == 'quick' else 36):
+      algo = hosted[hi % len(hosted)]
+      serv_ = _vsvc.VizierServicer(database_url=None)
+      history = []
+      for gen_ in range(3):
+        prob_, meta_ = spaces.gen_space(r, vz, nmax=3, allow_log=False)
+        sc_ = _svz2.StudyConfig.from_problem(prob_)
+        sc_.algorithm = algo
+        st_ = serv_.CreateStudy(_vs.CreateStudyRequest(parent='owners/o9', study=_spb.Study(display_name='same_name', study_spec=sc_.to_proto())))
+        study_ = _clients.Study(_vc.VizierClient(st_.name, 'w0', serv_))
+        history.append(meta_)
+        rep.case({'recreated_study': algo, 'generation': gen_, 'space': meta_}, gen_ > 0)
+        rep.count('service_recreated_%s' % algo)
+        try:
+          for round_ in range(2):
+            for t_ in study_.suggest(count=2):
+              got_ = {k: v.value for k, v in t_.materialize().parameters.items()}
+              probs = spaces.check_suggestion(meta_, got_)
+              if probs:
+                viol('%s in the service: a suggestion for a study re-created under the same name lies outside its search space: %s' % (algo, '; '.join(probs[:2])),
+                     {'algorithm': algo, 'spaces_under_this_name_so_far': history, 'suggested': got_})
+              t_.complete(vz.Measurement({'m': float(r.randrange(5))}))
+        except Exception as e:  # pylint: disable=broad-except
+          rep.count('service_refused_%s_%s' % (algo, type(e).__name__))
+        study_.delete()
+  except ImportError:
+    pass
   # ---- a declared default value outside the parameter's domain: refused somewhere (factory or seeding), never suggested
   for kind_, mk_, nm_ in [('double', lambda root: root.add_float_param('x', 0.0, 1.0, default_value=5.0), 'x'),
                           ('double_log', lambda root: root.add_float_param('x', 0.5, 2.0, default_value=0.25, scale_type=vz.ScaleType.LOG), 'x'),
